@@ -27,7 +27,7 @@ _STOPPING = {int(_signal.SIGSTOP), int(_signal.SIGTSTP), int(_signal.SIGTTIN), i
 
 class SimProc(object):
     __slots__ = ("pid", "st", "wstatus", "parent", "obeys", "args", "kw", "born", "owner", "wid",
-                 "sigs")
+                 "sigs", "stopped", "held")
 
     def __init__(self, pid, parent, obeys, args=None, kw=None, born=0.0):
         self.pid = pid
@@ -41,6 +41,8 @@ class SimProc(object):
         self.owner = None
         self.wid = None
         self.sigs = []
+        self.stopped = False      # job control: SIGSTOP / SIGTSTP ... received, no SIGCONT yet
+        self.held = []            # signals that arrived while stopped (they act when the process is continued)
 
 
 class SpawnFault(Exception):
@@ -103,6 +105,23 @@ class Kernel(object):
         sig = int(sig)
         p.sigs.append(sig)
         self.siglog.append((self.clock(), pid, sig, sender))
+        if p.st != "run":
+            return
+        if sig in _STOPPING:
+            p.stopped = True          # (a stopped process is still a live child: psutil says STATUS_STOPPED)
+            return
+        if sig == int(_signal.SIGCONT):
+            held, p.held, p.stopped = p.held, [], False
+            for h in held:
+                self._act(p, pid, h)
+            return
+        if p.stopped and sig != int(_signal.SIGKILL):
+            if sig != 0:
+                p.held.append(sig)
+            return
+        self._act(p, pid, sig)
+
+    def _act(self, p, pid, sig):
         if p.st != "run":
             return
         if sig == int(_signal.SIGKILL) or (p.obeys and sig not in _IGNORED_BY_DEFAULT
@@ -322,7 +341,7 @@ class FakePopen(object):
             self._k.rec("status", p=self.pid, r="zombie")
             return STATUS_ZOMBIE
         self._k.rec("status", p=self.pid, r="run")
-        return psutil.STATUS_SLEEPING
+        return psutil.STATUS_STOPPED if sp.stopped else psutil.STATUS_SLEEPING
 
     def is_running(self):
         return self._sp.st != "reaped"
